@@ -371,6 +371,9 @@ def _shorten(case, limit=1500):
 # ======================================================================================
 
 def worker_main(argv):
+    import warnings
+
+    warnings.filterwarnings("ignore", category=SyntaxWarning)  # ast.parse of generated type strings such as "5limit"
     setup_paths()
     pid, tier, seed, shard, nshards, deadline, out = argv[:7]
     mod = importlib.import_module("checks." + pid)
